@@ -1,7 +1,7 @@
 (* Extraction of the executable model for the correspondence check.
    ExtrOcamlBasic only: N, Z, positive, nat stay the extracted inductives. *)
 From Coq Require Import Extraction ExtrOcamlBasic.
-From RL Require Import UData Uax29 Utf8 History HistFile Direct Completion LineBufferOps EditorRun.
+From RL Require Import UData Uax29 Utf8 History HistFile Direct Completion LineBufferOps EditorRun SqlHist.
 
 Extraction Blacklist List String Int.
 
@@ -18,5 +18,7 @@ Extraction "model.ml"
   complete_path longest_common_prefix unescape escape extract_word find_unclosed_quote
   (* line buffer *)
   lb_run lb_apply mkLb move_to_line_up move_to_line_down
+  (* sqlite history *)
+  sql_new sql_run
   (* editor *)
   run_reads mk_config kr_new mkIn mkMods.
